@@ -16,6 +16,13 @@ PINS = {
     "C07_total": "forall b, de_value true b <> Err Fuel /\\ skip_value b <> Err Fuel",
     "C07_key_skip_widths": "forall i, key_skip_width i = int_width i",
     "C07_no_amplification": "de_value utf8 b = Ok (v, r) -> (vsize v + length r <= length b)%nat",
+    "C07_utf8_converse_naive_refuted": "exists b v r, de_value false b = Ok (v, r) /\\ wf true v = true /\\ de_value true b <> Ok (v, r)",
+    "C07_validating_iff": "forall b v r, de_value true b = Ok (v, r) <-> de_value false b = Ok (v, r) /\\ all_strings_valid b = true",
+    "C07_validating_error": "forall b v r, de_value false b = Ok (v, r) -> all_strings_valid b = false -> de_value true b = Err Invalid",
+    "C07_error_kinds": "forall utf8 b e, de_value utf8 b = Err e -> e = Eoi \\/ e = Invalid \\/ e = TooDeep",
+    "C07_skip_bounded": "forall b r, skip_value b = Ok r -> exists p, b = p ++ r /\\ p <> []",
+    "C07_split_bounded": "forall b p r, split_off b = Ok (p, r) -> b = p ++ r /\\ p <> [] /\\ skip_value b = Ok r /\\ lenN p <= lenN b",
+    "C07_value_len_bounded": "forall b n, value_len b = Ok n -> 1 <= n <= lenN b",
 }
 SIZES = {"quick": (40000, 8), "thorough": (3000000, 16)}
 
